@@ -537,6 +537,7 @@ def run(ctx):
     assumptions = ["descriptor strings modelled on pyserial 3 output on macOS/Linux/Windows",
                    "space/underscore serial-number variants are not asserted"]
     coverage["rule"] += ("; nicknames and serial tags beginning with each short string literal of pyserial's port and enumeration modules")
+    coverage["rule"] += ("; one board under every kind of device name (pyserial's glob patterns, macOS dial-in / call-out pairs, Windows names)")
     return {"part": part, "coverage": coverage, "assumptions": assumptions}
 
 
